@@ -58,8 +58,36 @@ def real_state(q):
     return q.__getstate__()
 
 
+def validated_pair(digits, reference):
+    """what _validate_pickle_digits makes of the request (harness-side, independent of the code): a number is
+    clipped to the single..double range unless its reference is a number"""
+    d = list(digits) if isinstance(digits, (list, tuple)) else [digits, digits]
+    r = list(reference) if isinstance(reference, (list, tuple)) else [reference, reference]
+    out = []
+    for k in range(2):
+        x = d[k]
+        if not isinstance(x, str) and isinstance(r[k], str):
+            x = min(max(SINGLE_DIGITS, float(x)), DOUBLE_DIGITS)
+        out.append(x)
+    return out
+
+
+def digits_attrs(q):
+    def one(o):
+        d = getattr(o, '_pickle_digits', None)
+        return '-' if d is None else [digit_cls(d[0]), digit_cls(d[1])]
+    return [one(q), [[k, one(d)] for k, d in q._derivs_.items()]]
+
+
 def impl(case):
     mode = case['mode']
+    if mode == 'sd':
+        try:
+            q = build(dict(case, digits=None))
+            q.set_pickle_digits(jsonval(case['digits']), jsonval(case['reference']))
+            return digits_attrs(q)
+        except Exception as e:
+            return C.exc_name(e)
     if mode == 'cols':
         a = np.array(case['rows'], dtype=np.int64).reshape(len(case['rows']), case['isz'])
         cols = np.require(a.reshape((-1, case['isz'])).swapaxes(0, 1), requirements=['C', 'A'])
@@ -115,17 +143,29 @@ def full_vals(q):
     return np.broadcast_to(np.asarray(q._values_), q._shape_ + q._item_)
 
 
-def eff_digits(case, q, key=None):
-    """(digits, reference) requested for the object (key None) or for a derivative"""
+def attr_digits(q, key=None):
+    """the digits setting the CODE will use (read off the attributes): decides which model mode applies"""
     if key is None:
-        d, r = getattr(q, '_pickle_digits', None), getattr(q, '_pickle_reference', None)
-        return (d[0] if d else 'double', r[0] if r else 'fpzip')
-    dq = q._derivs_[key]
-    d, r = getattr(dq, '_pickle_digits', None), getattr(dq, '_pickle_reference', None)
+        d = getattr(q, '_pickle_digits', None)
+        return d[0] if d else 'double'
+    d = getattr(q._derivs_[key], '_pickle_digits', None)
     if d is not None:
-        return (d[0], r[0] if r else 'fpzip')
-    d, r = getattr(q, '_pickle_digits', None), getattr(q, '_pickle_reference', None)
-    return (d[1] if d else 'double', r[1] if r else 'fpzip')
+        return d[0]
+    d = getattr(q, '_pickle_digits', None)
+    return d[1] if d else 'double'
+
+
+def eff_digits(case, q, key=None):
+    """(digits, reference) REQUESTED through the public API in this case's history — never read back from the
+    object: the first entry of each pair given to set_pickle_digits is the object's, the second its derivatives',
+    whether they were inserted before or after the call; no call means the defaults ('double', 'fpzip')"""
+    d, r = case.get('digits'), case.get('reference')
+    if d is None:
+        return ('double', 'fpzip')
+    d = list(d) if isinstance(d, (list, tuple)) else [d, d]
+    r = list(r) if isinstance(r, (list, tuple)) else [r, r]
+    i = 0 if key is None else 1
+    return (d[i], r[i])
 
 
 def ref_value(a, reference):
@@ -370,6 +410,12 @@ DIGIT_OPTS = [('double', 'fpzip'), ('single', 'fpzip'), (8, 'fpzip'), (12.5, 'fp
               (['single', 'double'], 'fpzip'), ([8, 10], ['largest', 'smallest']), (['double', 6], ['fpzip', 1.0])]
 
 
+PAIR_OPTS = [(['single', 'double'], 'fpzip'), (['double', 'single'], 'fpzip'), ([7, 12], ['largest', 'smallest']),
+             ([12, 7], ['smallest', 'largest']), (8, ['fpzip', 1.0]), (8, [1.0, 'fpzip']), (['double', 9], ['fpzip', 'mean']),
+             ([6, 'double'], ['median', 'fpzip']), ([5, 11], [100., 0.001]), ([11, 5], 1.0), ([7, 13], 'largest'),
+             ([14, 'single'], ['logmean', 'fpzip']), (10, ['smallest', 'mean']), (['single', 10], ['fpzip', 'fpzip'])]
+
+
 def rand_mask(rng, shape, pat=None, isz=1):
     n = int(np.prod(shape, dtype=int))
     if not shape:
@@ -437,11 +483,18 @@ def rand_derivs(rng, o, lossy):
 def mk(case, idn):
     """fill in request, kind, non-triviality"""
     case['id'] = idn
+    if case.get('mode') == 'sd':
+        q0 = build(dict(case, digits=None))
+        vp = validated_pair(case['digits'], case['reference'])
+        case['req'] = ['c11', 'sd', digit_cls(vp[0]), digit_cls(vp[1]), qobj_sx(q0, with_digits=True)]
+        case['nontrivial'] = bool(q0._derivs_)
+        case['kind'] = 'sd:%d derivs' % len(q0._derivs_)
+        return case
     q = build(case)
     o = case['obj']
     lossy = False
     for obj, key in [(q, None)] + [(q, k) for k in q._derivs_]:
-        d, _ = eff_digits(case, q, key)
+        d = attr_digits(q, key)
         tgt = q if key is None else q._derivs_[key]
         if d != 'double' and Qube._dtype(tgt._values_) == 'float':
             lossy = True
@@ -584,12 +637,40 @@ def gen_cases(rng, tier):
                     for d in derivs:
                         d['vdist'] = rng.choice([dist, 'normal'])
                     add(o, derivs=derivs, digits=digits, reference=reference, digits_first=rng.random() < 0.2)
+    # 8. set_pickle_digits with PAIRS whose entries differ (digits and reference independently), called before and
+    #    after the derivatives are inserted; more than 200 derivative values survive the mask, so every derivative is
+    #    really compressed and is judged against ITS entry of the pair
+    for _ in range(3 if thorough else 1):
+        for digits, reference in PAIR_OPTS:
+            for first in (False, True):
+                shape = rng.choice([[300], [20, 30], [7, 8, 9], [40, 41]])
+                o = rand_obj(rng, 'float', shape, lossy=True, cls=rng.choice(FLOAT_CLASSES[:4]))
+                o['vdist'] = rng.choice(['normal', 'smooth', 'uniform', 'moderate'])
+                o['denom'] = []
+                o['dtype'] = 'float64'
+                o['mask'] = rng.choice(['F', {'pat': 'random', 'seed': rng.randrange(1 << 30), 'p': 0.1},
+                                        {'pat': 'holes', 'seed': rng.randrange(1 << 30)}])
+                derivs = rand_derivs(rng, o, True)
+                for d in derivs:
+                    d['vdist'] = rng.choice(['normal', 'smooth', 'uniform', 'moderate'])
+                    d['dtype'] = 'float64'
+                    d['mask'] = rng.choice(['parent', 'parent', 'F'])
+                    d.pop('dshape', None)
+                post = rng.sample(['warm', 'swap', 'rev'], rng.choice([0, 0, 1]))
+                add(o, derivs=derivs, digits=digits, reference=reference, digits_first=first, post=post)
+                if not first:                    # the attribute propagation itself, against the model's setDigits
+                    add(copy.deepcopy(o), derivs=copy.deepcopy(derivs), digits=digits, reference=reference, post=post, mode='sd')
     return cases
 
 
 def neighbours(case):
     """smaller / simpler variants of a case"""
     if case.get('mode') == 'cols':
+        return
+    if case.get('mode') == 'sd':              # the same history judged end to end
+        c = copy.deepcopy(case)
+        c['mode'] = 'rt'
+        yield mk(c, case.get('id', 'n') + '-rt')
         return
     o = case['obj']
     for shape in ([3], [2, 3], [201]):
